@@ -36,7 +36,12 @@ REQUESTS = [
     "query Q($s: Boolean!) { alist { id name @include(if: $s) } }",
     "{ a { peer { ... on A { peer { id } } } } num }",
     "{ color tag ints num }",
+    "{ a { name } b { strict } num }",
 ]
+# requests explored with every *pair* of independent failing points as well (a nullable failure in one sub-tree, a failure that
+# propagates in another: the errors of one must not depend on when the other completes)
+PAIR_REQUESTS = {"{ a { name } b { strict } num }"}
+PAIR_SPLIT = 3
 SELF_NESTED = "{ a { peer { ... on A { peer { id } } } } num }"
 SUSPEND_HOOKS = {"{ two(a: 1, b: 2) num }"}
 MAX_I = {"quick": 1, "thorough": 2}
@@ -76,6 +81,9 @@ def shards(tier, seed):
     for ri in range(len(REQUESTS)):
         for ci in range(len(configs())):
             items.append((ri, ci, tier))
+            if REQUESTS[ri] in PAIR_REQUESTS:
+                for k in range(PAIR_SPLIT):
+                    items.append((ri, ci, tier, k))
     return items
 
 
@@ -169,7 +177,8 @@ def explore_request(engine, schema, text, located, variables, root, faults, faul
 
 
 def run_shard(item):
-    ri, ci, tier = item
+    ri, ci, tier = item[:3]
+    pair_part = item[3] if len(item) > 3 else None
     out = {"counts": {"schedules": 0, "choice_points": 0, "requests": 0, "nontrivial_schedules": 0, "determinism_checks": 0},
            "tables": {"distinct_outcomes_per_request": {}}, "sets": {}, "samples": [], "violations": [], "machinery": [], "caps": []}
     schema = seeds.K
@@ -191,6 +200,23 @@ def run_shard(item):
     if located.operations[0].vars:
         varsets = [{"s": True}, {"s": False}]
     for variables in varsets:
+        if pair_part is not None:
+            # pairs of failing points in two different root sub-trees (a point inside the region that the other failure nulls is left to the
+            # single faults: after a non-null failure the later sequential siblings may legitimately be skipped, DC8)
+            points, _ = c02.reach_points(schema, located, None, variables, root)
+            pts = [p for p, fd in points.items() if fd is not None]
+            region = {}
+            for p in pts:  # the positions a failure at p makes null (its own, or the nullable ancestor it propagates to)
+                e1 = X.execute_request(schema, located, None, variables, Scenario(root=root, faults={p: "raise"}, fault_values={}))
+                region[p] = [tuple(n) for n in e1.nulled] if e1.data is not None else [()]
+            inside = lambda q, p: any(q[:len(n)] == n for n in region[p])
+            pairs = [(p, q) for i, p in enumerate(pts) for q in pts[i + 1:] if p[0] != q[0] and not inside(q, p) and not inside(p, q)]
+            for n, (p, q) in enumerate(pairs):
+                if n % PAIR_SPLIT != pair_part:
+                    continue
+                explore_request(engine, schema, text, located, variables, root, {p: "raise", q: "raise"}, {}, "quick", out, text, cfg["label"])
+                out["counts"]["fault_pairs"] = out["counts"].get("fault_pairs", 0) + 1
+            continue
         n, exp = explore_request(engine, schema, text, located, variables, root, {}, {}, tier, out, text, cfg["label"],
                                  suspend_hooks=REQUESTS[ri] in SUSPEND_HOOKS)
         # every single fault of the C02 kinds {raise, null} at every reachable point
@@ -206,6 +232,8 @@ def run_shard(item):
                     # (the 150-item list: all completion orders, no injections -- every item adds callback gaps)
                     explore_request(engine, schema, text, located, variables, root, {p: fault}, {p: value}, "quick", out, text, cfg["label"],
                                     max_i=0 if "150" in label else None)
+    if pair_part is not None:
+        return out
     # determinism self-check: replay one non-default schedule twice
     loop = vloop()
     scn = Scenario(root=root)
